@@ -13,6 +13,8 @@ pub mod p_nrpn;
 pub mod pollobs;
 #[cfg(feature = "hm_std")]
 pub mod p_polling;
+#[cfg(feature = "hm_std")]
+pub mod p_grammar;
 
 use engine::{CheckResult, Ctx, Report};
 use serde_json::Value;
@@ -30,6 +32,8 @@ pub fn run_property(ctx: &Ctx) -> Option<Report> {
         "C09" => Some(p_nrpn::run_c09(ctx)),
         "C10" => Some(p_nrpn::run_c10(ctx)),
         "C11" => Some(p_nrpn::run_c11(ctx)),
+        #[cfg(feature = "hm_std")]
+        "C12" => Some(p_grammar::run_c12(ctx)),
         #[cfg(feature = "hm_std")]
         "C13" => Some(p_polling::run_c13(ctx)),
         #[cfg(feature = "hm_std")]
@@ -51,6 +55,8 @@ pub fn replay_case(prop: &str, sub: &str, case: &Value) -> Option<CheckResult> {
         "C09" => p_nrpn::replay_c09(sub, case),
         "C10" => p_nrpn::replay_c10(sub, case),
         "C11" => p_nrpn::replay_c11(sub, case),
+        #[cfg(feature = "hm_std")]
+        "C12" => p_grammar::replay_c12(sub, case),
         #[cfg(feature = "hm_std")]
         "C13" | "C14" => p_polling::replay_polling(prop, sub, case),
         _ => None,
